@@ -117,6 +117,13 @@ CHECKS = {
             "real decoders, real threads and the rebuilt Rust extension are swept over damage kind x position under a watchdog.",
             "z3; contracts of C13; executor re-raise contract; Rust reader covered by concrete sweep (protocol: C15); tf.data outside",
             "DESIGN.md 3/C07"),
+    "C18": ("symx",
+            "bounded symbolic execution of write sequences through the real filler and shard writers/readers (E symbolic; position, attribute, violation kind, metadata solver-forked)",
+            "For fb and npz (tfrec in the thorough tier) every (position, offending attribute incl. scalar and missing, violation "
+            "kind, surrounding metadata arguments) and every examples_per_shard value: a rejected write leaves no trace (session "
+            "continues, other examples unchanged, counts exclude it), an accepted write keeps the dataset decodable.",
+            "z3; real numpy/flatbuffers; concrete representative values per violation kind; <=3 writes quick / 4 thorough",
+            "DESIGN.md 3/C18"),
 }
 
 PENDING_REASON = "check not built yet in this round (work in progress; see DESIGN.md section 3 for the planned encoding)"
